@@ -241,6 +241,9 @@ func genCase(seed int64) caseDesc {
 }
 
 func run(sh *core.Shard, a props.Args) {
+	if !runLiveness(sh, a) {
+		return
+	}
 	cases := a.Pick(60000, 3000000)
 	var queries int64
 	for i := 0; i < cases; i++ {
@@ -273,12 +276,12 @@ func run(sh *core.Shard, a props.Args) {
 func init() {
 	props.Register(&props.Prop{
 		ID: "C12", Level: "exploration",
-		Rule: "seeded strictly increasing arrival sequences (length 1..5W+3, W in {1,2,3,7,50}, regimes steady/jitter/bursty/drift/random, intervals 1 ns .. hours) fed to the real accrualFailureDetector with explicit timestamps; every query compared with an exact big.Rat reference (silence x n / sum of the last W intervals, first sample = bootstrap); zero at arrival; steady peers stay below 20; silence beyond 20 x mean exceeds 20; histories sharing the last W intervals give identical levels; never-heard peers: contract only. Non-trivial = the sequence is longer than the window (eviction happened); distinct = hash of the case parameters.",
+		Rule: "seeded strictly increasing arrival sequences (length 1..5W+3, W in {1,2,3,7,50}, regimes steady/jitter/bursty/drift/random, intervals 1 ns .. hours) fed to the real accrualFailureDetector with explicit timestamps; every query compared with an exact big.Rat reference (silence x n / sum of the last W intervals, first sample = bootstrap); zero at arrival; steady peers stay below 20; silence beyond 20 x mean exceeds 20; histories sharing the last W intervals give identical levels; never-heard peers: contract only. Integration leg: the real detector behind the real clusterState.UpdateLiveness and packet listener on a virtual clock (2-3 peers, heartbeat and silence phases, delta datagrams as arrivals, a tick per gossip interval): at every tick a heard peer is flagged unreachable iff the reference level exceeds the threshold, so a silent peer stays flagged until it is heard again. Non-trivial = the sequence is longer than the window (eviction happened); distinct = hash of the case parameters.",
 		Assumptions: []string{
 			"steady-peer claim asserted only when the bootstrap interval is within 8x of the peer's interval (piko configures 2x the gossip interval)",
 			"timestamps supplied through ReportWithTimestamp/SuspicionLevelAt; Report()/SuspicionLevel() only add time.Now()",
 		},
-		RequireCounters: []string{"queries", "window_wrapped_cases"},
+		RequireCounters: []string{"queries", "window_wrapped_cases", "liveness_ticks", "liveness_ticks_with_flagged_peer"},
 		Timeout: func(t string) time.Duration {
 			if t == "thorough" {
 				return 60 * time.Minute
